@@ -101,12 +101,8 @@ Proof. vm_compute. split; reflexivity. Qed.
 (* ==========================================================================================================
    Part 2 (Model/Args.v): the caller's argument objects.  A world holds the caller's Feature objects (hF) and Options
    objects (hO) by address, the links set object, and the GlobalFilter (filters, collection); plan_call is
-   mlodaAPI.prepare (= the planning half of run_all) as a transformer of that world.  Full statement of the property:
-
-     (* forall histories cs and calls c:  outcome (plan_call (after w0 cs) c) ~ outcome (plan_call w0 c) *)
-
-   It is FALSE for the code as it is (filter_reuse_refuted, links_reuse_refuted below); it is proved outside the two
-   decidable domains kf_filter_touched and kf_links (args_reuse_partial). *)
+   mlodaAPI.prepare (= the planning half of run_all) as a transformer of that world, for the code as it is now: the
+   Engine plans on private copies of the links set and of the GlobalFilter (/repo 68bd25e, bacc886). *)
 Require Import MV.Model.Args MV.Proofs.ArgsP.
 
 (* copy_features=True (the default): whatever the call does -- succeed, fail half way, be rejected -- the caller's
@@ -122,119 +118,76 @@ Theorem copy_features_frame_history : forall u fuel cs w, forallb c_copy cs = tr
 Proof. exact copy_features_frame_history_l. Qed.
 Print Assumptions copy_features_frame_history.
 
-(* What a call writes into caller-owned Feature / Options objects, for both values of copy_features (Inv, f_evolves,
-   o_evolves in Proofs/ArgsP.v): the heaps keep their size; of a Feature, name / options reference / uuid / link are never
-   written, initial_requested_data is only raised, compute_frameworks only set when unset, data_type only set when unset;
-   of an Options object the context is never written and the group is only extended by the keys "ApiInputData" /
-   "strict_type_enforcement"; an object is written at all only if copy_features=False and it is a requested feature,
-   resp. the Options object of a requested feature.  GlobalFilter.filters is never written. *)
+(* The caller's links set and GlobalFilter (filters AND collection) are never written, for every call, whatever
+   copy_features is and however the call ends. *)
+Theorem links_set_untouched : forall u fuel w c, w_links (fst (plan_call u fuel w c)) = w_links w.
+Proof. exact links_set_untouched_l. Qed.
+Print Assumptions links_set_untouched.
+
+Theorem filter_object_untouched : forall u fuel w c,
+  w_filters (fst (plan_call u fuel w c)) = w_filters w /\ w_coll (fst (plan_call u fuel w c)) = w_coll w.
+Proof. exact filter_object_untouched_l. Qed.
+Print Assumptions filter_object_untouched.
+
+(* What a call writes into caller-owned objects at all, for both values of copy_features (Inv, f_evolves, o_evolves in
+   Proofs/ArgsP.v): only Feature and Options objects; the heaps keep their size; of a Feature, name / options reference /
+   uuid / link are never written, initial_requested_data is only raised, compute_frameworks only set when unset, data_type
+   only set when unset; of an Options object the context is never written and the group is only extended by the keys
+   "ApiInputData" / "strict_type_enforcement"; an object is written only if copy_features=False and it is a requested
+   feature, resp. the Options object of a requested feature. *)
 Theorem prepare_args_effect : forall u fuel w c,
   Inv (if c_copy c then [] else c_feats c) (hF w, hO w)
       (hF (fst (plan_call u fuel w c)), hO (fst (plan_call u fuel w c))) /\
-  w_filters (fst (plan_call u fuel w c)) = w_filters w.
-Proof. exact prepare_args_effect_l. Qed.
+  w_links (fst (plan_call u fuel w c)) = w_links w /\
+  w_filters (fst (plan_call u fuel w c)) = w_filters w /\
+  w_coll (fst (plan_call u fuel w c)) = w_coll w.
+Proof. exact prepare_args_effect_full_l. Qed.
 Print Assumptions prepare_args_effect.
 
-(* The caller's links set (even with copy_features=True): never shrinks, untouched when links=None is passed, otherwise
-   left as it was or extended by exactly the add calls of the traversal -- each of which adds the Link attached to a
-   feature the call stored (requested, or created by a group's input_features). *)
-Theorem links_set_grows : forall u fuel w c,
-  incl (w_links w) (w_links (fst (plan_call u fuel w c))) /\
-  (c_links c = false -> w_links (fst (plan_call u fuel w c)) = w_links w) /\
-  (w_links (fst (plan_call u fuel w c)) = w_links w \/
-   w_links (fst (plan_call u fuel w c)) = apply_links (w_links w) (call_ladds u fuel w c)).
-Proof. exact links_set_grows_l. Qed.
-Print Assumptions links_set_grows.
-
+(* What the Engine adds to its PRIVATE copies: every added link is the Link attached to a feature the call stored
+   (requested, or created by a group's input_features), every key under which a filter is recorded is (group, name) of a
+   stored feature. *)
 Theorem call_adds_provenance : forall u fuel w c,
   (forall x, In x (call_ladds u fuel w c) -> exists p, In p (snd (call_products u fuel w c)) /\ pf_link p = Some x) /\
   (forall kx, In kx (fst (call_products u fuel w c)) -> touches (snd (call_products u fuel w c)) (fst kx) = true).
 Proof. exact call_adds_provenance_l. Qed.
 Print Assumptions call_adds_provenance.
 
-(* The caller's GlobalFilter.collection: entries are only ever added, never removed or reset. *)
-Theorem filter_collection_accumulates : forall u fuel w c,
-  (forall k, incl (coll_get (w_coll w) k) (coll_get (w_coll (fst (plan_call u fuel w c))) k)) /\
-  (c_filter c = false -> w_coll (fst (plan_call u fuel w c)) = w_coll w).
-Proof. exact filter_collection_accumulates_l. Qed.
-Print Assumptions filter_collection_accumulates.
+(* a call with the default copy_features leaves the caller's whole world as it was; so does any sequence of them *)
+Theorem call_leaves_world : forall u fuel w c, c_copy c = true -> fst (plan_call u fuel w c) = w.
+Proof. exact call_leaves_world_l. Qed.
+Print Assumptions call_leaves_world.
 
-(* filter_reuse: (full statement: forall w c, snd (plan_call w c) = snd (plan_call (set_coll w []) c)) -- refuted.
-   Proved when the collection holds no entry under a key (group, name) of a feature the call stores: then the outcome
-   is EXACTLY that of a GlobalFilter whose collection starts empty. *)
-Theorem filter_reuse_partial : forall u fuel w c, kf_filter_touched u fuel w c = false ->
-  snd (plan_call u fuel w c) = snd (plan_call u fuel (set_coll w []) c).
-Proof. exact filter_reuse_partial_l. Qed.
-Print Assumptions filter_reuse_partial.
+Theorem history_leaves_world : forall u fuel cs w, forallb c_copy cs = true ->
+  after world call outcome (plan_call u fuel) w cs = w.
+Proof. exact history_leaves_world_l. Qed.
+Print Assumptions history_leaves_world.
 
-Theorem filter_reuse_refuted :
-  let c1 := cl [0] true false true None in let c2 := cl [1] true false true None in
-  let w1 := fst (plan_call exu 8 (exw []) c1) in
-  is_accepted (snd (plan_call exu 8 (exw []) c1)) = true /\
-  hF w1 = hF (exw []) /\ hO w1 = hO (exw []) /\ w_filters w1 = w_filters (exw []) /\
-  snd (plan_call exu 8 w1 c2) = Failed ERejected /\
-  is_accepted (snd (plan_call exu 8 (exw []) c2)) = true /\
-  kf_filter exu 8 w1 c2 = true /\ kf_filter_touched exu 8 w1 c2 = true.
-Proof. exact filter_reuse_refuted_l. Qed.
-Print Assumptions filter_reuse_refuted.
+(* The reuse half of C07 at full strength, for ALL universes, worlds, histories and calls: after any sequence of
+   copy_features=True calls, a call given the same Feature, Options, links, GlobalFilter objects has exactly the outcome
+   (and the effect) of the call given the pristine objects. *)
+Theorem args_reuse : forall u fuel w0 cs c, forallb c_copy cs = true ->
+  plan_call u fuel (after world call outcome (plan_call u fuel) w0 cs) c = plan_call u fuel w0 c.
+Proof. exact args_reuse_l. Qed.
+Print Assumptions args_reuse.
 
-Theorem filter_reuse_refuted_design_witness :
-  let c1 := cl [2] true false true None in let c2 := cl [1; 3] true false true None in
-  let w1 := fst (plan_call exu 8 (exw []) c1) in
-  snd (plan_call exu 8 w1 c2) = Failed ERejected /\ is_accepted (snd (plan_call exu 8 (exw []) c2)) = true /\
-  kf_filter exu 8 w1 c2 = true.
-Proof. exact filter_reuse_refuted2_l. Qed.
-Print Assumptions filter_reuse_refuted_design_witness.
+(* in the shape of Spec/Reuse.v *)
+Theorem args_prefix_independent : forall u fuel w0,
+  prefix_independent world call outcome (plan_call u fuel) (fun _ pre _ => forallb c_copy pre = true) eq w0.
+Proof. exact args_prefix_independent_l. Qed.
+Print Assumptions args_prefix_independent.
 
-(* the "frozen" plan of an earlier session refers to a collection entry that a later call extends *)
-Theorem session_plan_aliases_filter_refuted :
-  let c1 := cl [2] true false true None in let c2 := cl [1] true false true None in
-  let w1 := fst (plan_call exu 8 (exw []) c1) in let w2 := fst (plan_call exu 8 w1 c2) in
-  is_accepted (snd (plan_call exu 8 (exw []) c1)) = true /\ is_accepted (snd (plan_call exu 8 w1 c2)) = true /\
-  List.length (coll_get (w_coll w1) (0, "a"%string)) = 1 /\ List.length (coll_get (w_coll w2) (0, "a"%string)) = 2 /\
-  fset_eqb (coll_get (w_coll w1) (0, "a"%string)) (coll_get (w_coll w2) (0, "a"%string)) = false.
-Proof. exact filter_entry_of_earlier_session_grows_l. Qed.
-Print Assumptions session_plan_aliases_filter_refuted.
-
-(* links_reuse: two worlds that agree on everything but the ORDER of the links set give the same outcome (and the links
-   set is irrelevant when links=None is passed); a set that GREW changes it. *)
-Theorem links_reuse_partial : forall u fuel w1 w2 c,
+(* the outcome does not depend on the ORDER of the caller's links set (a Python set), nor on the set at all when
+   links=None is passed *)
+Theorem links_order_irrelevant : forall u fuel w1 w2 c,
   hF w1 = hF w2 -> hO w1 = hO w2 -> w_filters w1 = w_filters w2 -> w_coll w1 = w_coll w2 ->
   (c_links c = true -> same_links (w_links w1) (w_links w2)) ->
   outcome_sim (snd (plan_call u fuel w1 c)) (snd (plan_call u fuel w2 c)).
 Proof. exact links_reuse_partial_l. Qed.
-Print Assumptions links_reuse_partial.
+Print Assumptions links_order_irrelevant.
 
-Theorem links_reuse_refuted :
-  let c1 := cl [4] true true false None in let c2 := cl [5] true true false None in
-  let w1 := fst (plan_call exu 8 (exw []) c1) in
-  hF w1 = hF (exw []) /\ w_links w1 = [Linner] /\
-  seen_links (snd (plan_call exu 8 w1 c2)) = [Linner] /\ seen_links (snd (plan_call exu 8 (exw []) c2)) = [] /\
-  is_accepted (snd (plan_call exu 8 w1 c2)) = true /\ is_accepted (snd (plan_call exu 8 (exw []) c2)) = true /\
-  kf_links (exw []) w1 c2 = true.
-Proof. exact links_reuse_refuted_l. Qed.
-Print Assumptions links_reuse_refuted.
-
-Theorem links_reuse_refuted_validation :
-  let c1 := cl [6] true true false None in let c2 := cl [5] true true false None in
-  let w1 := fst (plan_call exu 8 (exw [Linner]) c1) in
-  w_links w1 = [Linner; Lleft] /\ snd (plan_call exu 8 w1 c2) = Failed ELinks /\
-  is_accepted (snd (plan_call exu 8 (exw [Linner]) c2)) = true /\ kf_links (exw [Linner]) w1 c2 = true.
-Proof. exact links_reuse_refuted2_l. Qed.
-Print Assumptions links_reuse_refuted_validation.
-
-(* The reuse half of C07 outside the two known-defect domains, for ALL universes, worlds, histories and calls: after any
-   sequence of copy_features=True calls, a call given the same objects has the outcome of the call given pristine ones.
-   (kf_filter_touched is wider than what the harness attributes to the known finding, kf_filter: the narrower predicate
-   is validated by correspondence only -- chk_kf in harness/c07.py.) *)
-Theorem args_reuse_partial : forall u fuel w0 cs c, w_coll w0 = [] -> forallb c_copy cs = true ->
-  kf_links w0 (after world call outcome (plan_call u fuel) w0 cs) c = false ->
-  kf_filter_touched u fuel (after world call outcome (plan_call u fuel) w0 cs) c = false ->
-  outcome_sim (snd (plan_call u fuel (after world call outcome (plan_call u fuel) w0 cs) c)) (snd (plan_call u fuel w0 c)).
-Proof. exact args_reuse_partial_l. Qed.
-Print Assumptions args_reuse_partial.
-
-(* with copy_features=False the written feature changes a later call (Options.add conflict); with the default it does not *)
+(* The hypothesis copy_features=True of args_reuse is needed: with copy_features=False the written feature changes a later
+   call (Options.add conflict); with the default it does not. *)
 Theorem feature_reuse_nocopy_refuted :
   let api1 : cols := [("K"%string, ["a"%string; "b"%string])] in
   let api2 : cols := [("K"%string, ["a"%string; "b"%string; "z"%string])] in
@@ -249,21 +202,24 @@ Theorem feature_reuse_nocopy_refuted :
 Proof. exact feature_reuse_nocopy_refuted_l. Qed.
 Print Assumptions feature_reuse_nocopy_refuted.
 
-(* hypotheses of args_reuse_partial are satisfiable / the narrower domain: repeating a call with the same GlobalFilter *)
-Example C07_args_example :
-  let cs := [cl [2] true false true None; cl [2] true false true None] in
-  let c := cl [2] true false true None in
-  kf_links (exw []) (after world call outcome (plan_call exu 8) (exw []) cs) c = false /\
-  kf_filter exu 8 (after world call outcome (plan_call exu 8) (exw []) cs) c = false /\
-  kf_filter_touched exu 8 (after world call outcome (plan_call exu 8) (exw []) cs) c = true /\
-  outcome_eqb (snd (plan_call exu 8 (after world call outcome (plan_call exu 8) (exw []) cs) c))
-              (snd (plan_call exu 8 (exw []) c)) = true.
-Proof. exact args_reuse_example_l. Qed.
+(* the witnesses of the two repaired findings (C07-filter-collection-accumulates, C07-links-set-grows) in the model of
+   the repaired code: accepted like with fresh objects, nothing left in the caller's collection / links set, the Engine
+   still sees the feature-attached link during the call that carries it *)
+Example C07_former_witnesses :
+  let run2 w c1 c2 := snd (plan_call exu 8 (fst (plan_call exu 8 w c1)) c2) in
+  is_accepted (run2 (exw []) (cl [0] true false true None) (cl [1] true false true None)) = true /\
+  is_accepted (run2 (exw []) (cl [2] true false true None) (cl [1; 3] true false true None)) = true /\
+  w_coll (fst (plan_call exu 8 (exw []) (cl [2] true false true None))) = [] /\
+  w_links (fst (plan_call exu 8 (exw []) (cl [4] true true false None))) = [] /\
+  seen_links (snd (plan_call exu 8 (exw []) (cl [4] true true false None))) = [Linner] /\
+  seen_links (run2 (exw []) (cl [4] true true false None) (cl [5] true true false None)) = [] /\
+  w_links (fst (plan_call exu 8 (exw [Linner]) (cl [6] true true false None))) = [Linner] /\
+  is_accepted (run2 (exw [Linner]) (cl [6] true true false None) (cl [5] true true false None)) = true.
+Proof. exact former_witnesses_l. Qed.
 
-Example C07_args_example_outside_domains :
-  let cs := [cl [0] true false true None; cl [4] true false false None] in
-  let c := cl [5] true true false None in
-  kf_links (exw [Linner]) (after world call outcome (plan_call exu 8) (exw [Linner]) cs) c = false /\
-  kf_filter_touched exu 8 (after world call outcome (plan_call exu 8) (exw [Linner]) cs) c = false /\
+Example C07_args_example :
+  let cs := [cl [2] true false true None; cl [0; 1] true false true None; cl [4] true true false None] in
+  let c := cl [5; 2] true true true None in
+  after world call outcome (plan_call exu 8) (exw [Linner]) cs = exw [Linner] /\
   is_accepted (snd (plan_call exu 8 (after world call outcome (plan_call exu 8) (exw [Linner]) cs) c)) = true.
-Proof. vm_compute. repeat split; reflexivity. Qed.
+Proof. exact args_reuse_example_l. Qed.
